@@ -210,6 +210,10 @@ def generate(seed: int, run: int, tier: str) -> dict:
             ops.append({"op": "virtual", "vseed": rng.randrange(10**9), "perm": rng.randrange(0, 10**6), "faults": [_fault(rng)] if r < 0.6 else []})
             if rng.random() < 0.5:
                 ops.append({"op": "virtual", "vseed": rng.randrange(10**9), "perm": rng.randrange(0, 10**6), "faults": []})
+            if r >= 0.6 and rng.random() < 0.6:
+                # the source is edited and documentation is generated again into the same directory
+                vs = ops[-1]["vseed"]
+                ops.append({"op": "virtual", "vseed": vs, "edit": rng.randrange(1, 10**6), "keep_output": True, "perm": rng.randrange(0, 10**6), "faults": []})
         ops.append({"op": "probe"})
     return _job(seed, run, env, ops)
 
@@ -553,42 +557,50 @@ def _run_post(fs, op, vios, faults_count, probes) -> dict:
     return info
 
 
-def _virtual_tree(vseed: int, broken: bool = False) -> tuple[dict, set]:
+def _virtual_tree(vseed: int, broken: bool = False, edit_seed: int | None = None) -> tuple[dict, set]:
     """A small synthetic documented tree in shapes the real one lacks (nested directory named
     like an excluded one, private files and packages, undocumented modules, directives in both
-    orders, several documented members, members without directives)."""
+    orders or alone, several documented members, members without directives, private members with
+    a string literal after them, expressions whose evaluated form prints differently, wrappers
+    whose printed names collide across modules). Every docstring carries a unique marker.
+    With `edit_seed` the same tree is returned after a later source edit (laws added to existing
+    packages without touching their __init__.py, one law rewritten); the second value is the set
+    of edited paths."""
     import random  # pylint: disable=import-outside-toplevel
     rng = random.Random(vseed)
     root = "simsrc/vpkg"
     files: dict[str, str] = {}
     pkg_doc = '"""\nVirtual package {n}\n================\n\nText.\n"""\n'
-    member_tpl = ['{name} = symbols.{sym}\n"""\n{text} :symbols:`{sym}`.\n"""\n']
     syms = ["mass", "time", "length", "force", "speed", "temperature", "acceleration", "energy"]
 
-    def law_source(i, documented=True, broken=False):
-        a, b, c = rng.sample(syms, 3)
-        head = f'"""\nVirtual law {i}\n{"=" * (12 + len(str(i))) if documented else ""}\n\nDescription of law {i}.\n"""\n' if documented or rng.random() < 0.5 else ""
+    def law_source(i, documented=True, broken=False, rnd=None):
+        rnd = rnd or rng
+        a, b, c = rnd.sample(syms, 3)
+        head = f'"""\nVirtual law {i}\n{"=" * (12 + len(str(i))) if documented else ""}\n\nDescription of law {i}.\n"""\n' if documented or rnd.random() < 0.5 else ""
         body = "from sympy import Eq\nfrom symplyphysics import symbols, clone_as_symbol, Symbol, units, dimensionless\nfrom symplyphysics.core.operations.symbolic import FiniteDifference, Average\n\n"
-        body += member_tpl[0].format(name="first", sym=a, text="First is")
-        body += member_tpl[0].format(name="second", sym=b, text="Second is")
-        body += f'third = clone_as_symbol(symbols.{c}, subscript="{i}")\n"""\nThird.\n"""\n'
-        order = rng.choice(["sl", "ls", "s", "l"])
+        body += f'first = symbols.{a}\n"""\nDOC:first:{i} is :symbols:`{a}`.\n"""\n'
+        if rnd.random() < 0.4:
+            body += f'_helper = symbols.{b} * 2\n"""\nPRIVATE-DOC:{i} must never be shown.\n"""\n'
+        body += f'second = symbols.{b}\n"""\nDOC:second:{i} is :symbols:`{b}`.\n"""\n'
+        body += f'third = clone_as_symbol(symbols.{c}, subscript="{i}")\n"""\nDOC:third:{i}.\n"""\n'
+        order = rnd.choice(["sl", "ls", "s", "l"])
         d = {"s": ":laws:symbol::\n", "l": ":laws:latex::\n"}
         directive = "\n".join(d[ch] for ch in order)
-        body += f'law = Eq(first, second * third + {i + 2})\n"""\nSome text before.\n\n{directive}\nSome text after.\n"""\n'
-        if rng.random() < 0.5:
-            body += f'extra = Eq(second, first / third)\n"""\n{directive}\n"""\n'
-        if rng.random() < 0.5:
+        rhs = rnd.choice([f"second * third + {i + 2}", "second * third + second * third", "third * 2 * 3 + second", "second / third + second / third", f"(second + third) * {i + 2}"])
+        body += f'law = Eq(first, {rhs})\n"""\nDOC:law:{i} Some text before.\n\n{directive}\nSome text after.\n"""\n'
+        if rnd.random() < 0.5:
+            body += f'extra = Eq(second, first / third + first / third)\n"""\nDOC:extra:{i}\n\n{directive}\n"""\n'
+        if rnd.random() < 0.5:
             # a wrapper around a module-local symbol whose *printed* name collides across modules
-            dim, ltx = rng.choice([("units.length", "x"), ("dimensionless", "\\\\xi"), ("units.time", "x_t"), ("units.mass", "\\\\chi")])
-            wrapper = rng.choice(["FiniteDifference", "Average"])
-            body += f'_x = Symbol("x", {dim}, display_latex="{ltx}")\ndelta = {wrapper}(_x)\n"""\nChange of x.\n"""\n'
-        if rng.random() < 0.3:
+            dim, ltx = rnd.choice([("units.length", "x"), ("dimensionless", "\\\\xi"), ("units.time", "x_t"), ("units.mass", "\\\\chi")])
+            wrapper = rnd.choice(["FiniteDifference", "Average"])
+            body += f'_x = Symbol("x", {dim}, display_latex="{ltx}")\ndelta = {wrapper}(_x)\n"""\nDOC:delta:{i} Change of x.\n"""\n'
+        if rnd.random() < 0.3:
             # one member, two consecutive placeholder docstrings
-            body += f'twice = Eq(third, first + second)\n"""\n:laws:symbol::\n"""\n"""\n:laws:latex::\n"""\n'
+            body += f'twice = Eq(third, first + second)\n"""\n:laws:symbol::\n"""\n"""\nDOC:twice:{i}\n\n:laws:latex::\n"""\n'
         if broken:
             body += 'broken = Eq(first, this_name_is_not_defined * second)\n"""\n:laws:symbol::\n"""\n'
-        if rng.random() < 0.4:
+        if rnd.random() < 0.4:
             body += "\n_private_value = first + second\n\n\ndef calculate_it(x_):\n    \"\"\"Documented function.\"\"\"\n    return x_\n"
         return head + body
 
@@ -616,8 +628,92 @@ def _virtual_tree(vseed: int, broken: bool = False) -> tuple[dict, set]:
         cands = sorted(p for p in files if p.endswith(".py") and not p.endswith("__init__.py") and "/core/" not in p and "/_" not in p and "/alpha/drafts/" not in p and not p.startswith(root + "/core"))
         if cands:
             files[rng.choice(cands)] = law_source(999, documented=True, broken=True)
-    return files, set()
+    edited: set = set()
+    if edit_seed is not None:
+        er = random.Random(edit_seed)
+        dirs = sorted({os.path.dirname(p) for p in files if p.endswith("__init__.py") and os.path.dirname(p) != root})
+        for k in range(er.choice([1, 2])):
+            d = er.choice(dirs)
+            pth = f"{d}/added{700 + k}.py"
+            files[pth] = law_source(700 + k, documented=True, rnd=er)
+            edited.add(pth)
+        laws = sorted(p for p in files if p.endswith(".py") and not p.endswith("__init__.py") and p not in edited)
+        if laws and er.random() < 0.7:
+            pth = er.choice(laws)
+            files[pth] = law_source(800, documented=True, rnd=er)
+            edited.add(pth)
+    return files, edited
 
+
+_TOCTREE = re.compile(r"\.\. toctree::\n    :maxdepth: 4\n\n+((?:    \S.*\n)*)")
+
+
+def _virtual_content_oracles(files: dict, pages: dict, vios: list) -> int:
+    """Content oracles for synthetic pages, each through a path independent of the generator:
+    (a) every member block shows its own docstring marker and nobody else's, private docstrings
+    never appear; (b) every package page lists exactly its documented laws and its non-private
+    sub-packages, sorted; (c) every placeholder was replaced by the code/latex form of the member
+    as *written* (our own exec of the module with evaluation off)."""
+    import sympy as sp  # pylint: disable=import-outside-toplevel
+    from symplyphysics.docs.printer_code import code_str  # pylint: disable=import-outside-toplevel
+    from symplyphysics.docs.printer_latex import latex_str  # pylint: disable=import-outside-toplevel
+    n = 0
+    for name, text in sorted(pages.items()):
+        stem = name[:-4]
+        src_path = "simsrc/" + stem.replace(".", "/")
+        if "PRIVATE-DOC" in text:
+            vios.append(V("faithful", "virtual-private-docstring", f"synthetic page {name} shows the string literal that follows a private variable").v)
+        if src_path + ".py" in files:
+            src = files[src_path + ".py"]
+            # (a) markers
+            for b in re.split(r"(?m)^\.\. py:data:: ", text)[1:]:
+                member = b.split("\n", 1)[0].strip()
+                block = b.split("\n.. py:function::", 1)[0]
+                marks = set(re.findall(r"DOC:(\w+):\d+", block))
+                own = re.search(rf"(?m)^{member} = .*\n(?:\"\"\"\n(?:(?!\"\"\").*\n)*\"\"\"\n)*", src)
+                expects_marker = bool(own and f"DOC:{member}:" in own.group(0))
+                if marks - {member} or (expects_marker and member not in marks):
+                    vios.append(V("faithful", "virtual-docstring-association", f"synthetic page {name}: member {member} is shown with the docstring of {sorted(marks) or 'nobody'}").v)
+                n += 1
+            # (c) renderings as written
+            ns: dict = {}
+            try:
+                with sp.evaluate(False):
+                    exec(compile(src, src_path, "exec"), ns)  # pylint: disable=exec-used
+            except Exception:  # pylint: disable=broad-except
+                ns = {}
+            for member in ("law", "extra", "twice"):
+                obj = ns.get(member)
+                if obj is None or f".. py:data:: {member}\n" not in text:
+                    continue
+                block = text.split(f".. py:data:: {member}\n", 1)[1].split("\n.. py:", 1)[0]
+                doc_m = re.search(rf"(?m)^{member} = .*\n((?:\"\"\"\n(?:(?!\"\"\").*\n)*\"\"\"\n)+)", src)
+                doc_src = doc_m.group(1) if doc_m else ""
+                # of several string literals after one member only the last one is its docstring
+                lits = re.findall(r"\"\"\"\n((?:(?!\"\"\").*\n)*)\"\"\"\n", doc_src)
+                doc_src = lits[-1] if lits else ""
+                if ":laws:symbol::" in doc_src:
+                    want = f":code:`{code_str(obj)}`"
+                    if want not in block:
+                        got = re.findall(r":code:`(.*)`", block)
+                        vios.append(V("faithful", "virtual-code-rendering", f"synthetic page {name}: the symbol placeholder of {member} was not replaced by the code form of the equation as written ({code_str(obj)!r}); page shows {got[:2]}").v)
+                if ":laws:latex::" in doc_src and ":laws:symbol::" not in doc_src.split(":laws:latex::")[0][-1:] :
+                    want = latex_str(obj).strip().splitlines()[0].strip()
+                    if want and want not in block:
+                        vios.append(V("faithful", "virtual-latex-rendering", f"synthetic page {name}: the latex placeholder of {member} was not replaced by the latex form of the equation as written ({want!r})").v)
+                n += 1
+        elif src_path + "/__init__.py" in files:
+            # (b) package contents
+            pref = src_path + "/"
+            children = sorted({q[len(pref):].split("/")[0] for q in files if q.startswith(pref)})
+            laws = [stem + "." + c[:-3] for c in children if c.endswith(".py") and not c.startswith("__") and (pref + c) in files and is_documented(files[pref + c])]
+            pkgs = [stem + "." + c for c in children if any(q.startswith(pref + c + "/") for q in files) and not _private(c)]
+            m = _TOCTREE.search(text + "\n")
+            listed = [ln.strip() for ln in m.group(1).splitlines()] if m else []
+            if listed != pkgs + laws:
+                vios.append(V("faithful", "virtual-package-contents", f"synthetic package page {name} lists {listed}, the tree has sub-packages {pkgs} and documented laws {laws}").v)
+            n += 1
+    return n
 
 
 def _virtual_symbol_tables(files: dict, pages: dict, vios: list) -> int:
@@ -655,11 +751,15 @@ def _run_virtual(fs, op, vios, faults, probes, aborted):
     build = _S["build"]
     was_pending = aborted["pending"]
     broken = bool(op.get("broken"))
-    files, _ = _virtual_tree(int(op["vseed"]), broken=broken)
-    fs.vsrc = files
-    fs.vroot = "simsrc/vpkg"
+    files, edited = _virtual_tree(int(op["vseed"]), broken=broken, edit_seed=op.get("edit"))
+    if not op.get("keep_output"):
+        fs.files.clear()
+        fs.mtimes.clear()
+    else:
+        faults["regenerate_over_old_output"] = faults.get("regenerate_over_old_output", 0) + 1
+        probes["source edited between two generations into the same output"] = int(bool(edited))
+    fs.mount_source(files, "simsrc/vpkg", newer=edited)
     fs.begin(int(op.get("perm", 0)), op.get("faults"))
-    fs.files.clear()
     status = "ok"
     flag_bad_pages = []
     orig_law = build._process_law  # pylint: disable=protected-access
@@ -727,6 +827,8 @@ def _run_virtual(fs, op, vios, faults, probes, aborted):
                 vios.append(V("flag", "after-virtual", f"evaluation flag not default after generating a synthetic tree (first bad page: {(flag_bad_pages or ['end'])[0]}; previous generation aborted: {was_pending})").v)
             n = _virtual_symbol_tables(files, pages, vios)
             probes["synthetic symbol tables compared with an independent exec"] = int(n > 0)
+            n2 = _virtual_content_oracles(files, pages, vios)
+            probes["synthetic docstring / contents / rendering oracles"] = int(n2 > 0)
             if aborted["pending"]:
                 probes["successful generation after an aborted one in the same process"] = 1
             aborted["pending"] = False
